@@ -374,6 +374,8 @@ class Explorer:
                     env = {}
                 if name in env and isinstance(env[name], (str, bytes, int, float)) and not isinstance(env[name], bool):
                     val = env[name]
+                elif name in env and isinstance(env[name], tuple) and 0 < len(env[name]) <= 8 and all(isinstance(x, (str, bytes, int, float)) and not isinstance(x, bool) for x in env[name]):
+                    val = env[name]  # a short table of names / numbers (e.g. the dataset names of one file layout)
             self._scalars[key] = val
         v = self._scalars[key]
         if v is None:
@@ -381,6 +383,8 @@ class Explorer:
         fi_names = fi.param_names()
         if name in fi_names:
             return None
+        if isinstance(v, tuple):
+            return ast.Tuple(elts=[ast.Constant(value=x) for x in v], ctx=ast.Load())
         return ast.Constant(value=v)
 
     # ------------------------------------------------------------------ literal containers
